@@ -460,15 +460,47 @@ package geom
 //@   ensures ptsClose(a, b, e)
 
 //@ -- ------------------------------------------------------------ C13: Simplify
+//@ spec krossP(u Point, v Point) float64 = u.X*v.Y - u.Y*v.X
+//@ spec fi2N(smin float64, smax float64) int = (1 < smin || 0 > smax) ? 0 : (1 == smin ? 1 : (0 == smax ? 1 : 2))
+//@ spec fiPar(d0 Point, d1 Point, E Point) int = krossP(E, d0) * krossP(E, d0) > 0 ? 0 : fi2N(goMin(dotP(d0, E) / normP(d0), dotP(d0, E) / normP(d0) + dotP(d0, d1) / normP(d0)), goMax(dotP(d0, E) / normP(d0), dotP(d0, E) / normP(d0) + dotP(d0, d1) / normP(d0)))
+//@ spec fiCross(d0 Point, d1 Point, E Point) int = (krossP(E, d1) / krossP(d0, d1) < 0 || krossP(E, d1) / krossP(d0, d1) > 1) ? 0 : ((krossP(E, d0) / krossP(d0, d1) < 0 || krossP(E, d0) / krossP(d0, d1) > 1) ? 0 : 1)
+//@ opaque spec fiN(s0 segment, s1 segment) int = krossP(subP(s0.end, s0.start), subP(s1.end, s1.start)) * krossP(subP(s0.end, s0.start), subP(s1.end, s1.start)) > 0 ? fiCross(subP(s0.end, s0.start), subP(s1.end, s1.start), subP(s1.start, s0.start)) : fiPar(subP(s0.end, s0.start), subP(s1.end, s1.start), subP(s1.start, s0.start))
+//@ pred sharesEnd(a segment, b segment) = a.start == b.start || a.end == b.end || a.start == b.end || a.end == b.start
+//@ opaque pred segHit(s segment, p []Point, b int) = !sharesEnd(s, segment(p[b], p[b+1])) && fiN(s, segment(p[b], p[b+1])) > 0
+
+//@ func findIntersection
+//@   prop C13
+//@   mode real
+//@   ensures [count] result0 == fiN(seg0, seg1)
+//@   modifies nothing
+
 //@ func segMakesNotSimple
 //@   prop C13
 //@   mode real
+//@   ensures [sound] result ==> (exists a int, b int :: 0 <= a && a < len(paths) && 0 <= b && b + 1 < len(paths[a]) && segHit(segment(segStart, segEnd), paths[a], b))
+//@   using mention(segHit(segment(segStart, segEnd), p, i))
+//@   ensures [complete] (exists a int, b int :: 0 <= a && a < len(paths) && 0 <= b && b + 1 < len(paths[a]) && segHit(segment(segStart, segEnd), paths[a], b)) ==> result
+//@   ensures [complete_first] len(paths) >= 1 && !result ==> (forall b int :: 0 <= b && b + 1 < len(paths[0]) ==> !segHit(segment(segStart, segEnd), paths[0], b))
 //@   modifies nothing
 //@   loop 1 `for _, p := range paths`
 //@     invariant [outer] 0 <= #1 && #1 <= len(paths)
+//@     invariant [none_so_far] forall a int, b int :: 0 <= a && a < #1 && 0 <= b && b + 1 < len(paths[a]) ==> !segHit(segment(segStart, segEnd), paths[a], b)
 //@   loop 2 `for i := 0; i < len(p)-1; i++`
 //@     invariant [inner] 0 <= i
+//@     invariant [none_in_path] forall b int :: 0 <= b && b < i && b + 1 < len(p) ==> !segHit(segment(segStart, segEnd), p, b)
 //@     decreases len(p) - i
+
+//@ spec dotP(u Point, v Point) float64 = u.X*v.X + u.Y*v.Y
+//@ spec subP(a Point, b Point) Point = Point(a.X - b.X, a.Y - b.Y)
+//@ spec normP(v Point) float64 = sqrt(dotP(v, v))
+//@ spec footP(p Point, s Point, e Point) Point = Point(s.X + (dotP(subP(p, s), subP(e, s)) / dotP(subP(e, s), subP(e, s))) * subP(e, s).X, s.Y + (dotP(subP(p, s), subP(e, s)) / dotP(subP(e, s), subP(e, s))) * subP(e, s).Y)
+//@ opaque spec distPS(p Point, s Point, e Point) float64 = dotP(subP(p, s), subP(e, s)) <= 0 ? normP(subP(p, s)) : (dotP(subP(e, s), subP(e, s)) <= dotP(subP(p, s), subP(e, s)) ? normP(subP(p, e)) : normP(subP(p, footP(p, s, e))))
+
+//@ func distPointToSegment
+//@   prop C13, C03
+//@   mode real
+//@   ensures [def] result == distPS(p, segStart, segEnd)
+//@   modifies nothing
 
 //@ func simplifyCurve
 //@   prop C13
@@ -485,14 +517,24 @@ package geom
 //@   loop 2 `for j := i + 2; j < len(curve); j++`
 //@     invariant [scan] 0 <= i && i + 2 <= j && j <= len(curve) && len(curve) >= 3 && (breakTime <==> j == len(curve))
 //@     invariant [out] fresh(out) && cap(out) == len(curve) && 1 <= len(out) && out[0] == curve[0] && (breakTime ? (len(out) <= i + 2 && out[len(out)-1] == curve[len(curve)-1]) : (len(out) <= i + 1 && out[len(out)-1] == curve[i]))
+//@     invariant [validated] forall jj int, kk int :: i + 2 <= jj && jj < j && i < kk && kk < jj ==> distPS(curve[kk], curve[i], curve[jj]) <= tol
 //@     decreases len(curve) - i, len(curve) - j
 //@   loop 3 `for k := i + 1; k < j; k++`
 //@     invariant [scan] !breakTime2 && 0 <= i && i + 1 <= k && k <= j && i + 2 <= j && j < len(curve) && i == i@2 && j == j@2
 //@     invariant [out] fresh(out) && cap(out) == len(curve) && 1 <= len(out) && len(out) <= i + 1 && out[0] == curve[0] && out[len(out)-1] == curve[i]
+//@     invariant [validated] forall jj int, kk int :: i + 2 <= jj && jj < j && i < kk && kk < jj ==> distPS(curve[kk], curve[i], curve[jj]) <= tol
+//@     invariant [scan_tol] forall kk int :: i < kk && kk < k ==> distPS(curve[kk], curve[i], curve[j]) <= tol
 //@     decreases j - k
 //@   loop 4 `for {`
 //@     invariant [backoff] i + 2 <= j && j < len(curve)
+//@     invariant [validated] forall jj int, kk int :: i + 2 <= jj && jj < j && i < kk && kk < jj ==> distPS(curve[kk], curve[i], curve[jj]) <= tol
 //@     decreases j - i
+//@   assert [chord_tol] `i = j - 1` forall kk int :: i < kk && kk < j - 1 ==> distPS(curve[kk], curve[i], curve[j-1]) <= tol
+//@   assert [chord_validated_out] `i = j - 1` j - 1 > i + 1 ==> (forall b int :: 0 <= b && b + 1 < i ==> !segHit(segment(curve[i], curve[j-1]), out[0:i], b))
+//@   assert [chord_validated_rest] `i = j - 1` j - 1 > i + 1 ==> (forall b int :: 0 <= b && b + 1 < len(curve) - j ==> !segHit(segment(curve[i], curve[j-1]), curve[j:], b))
+//@   assert [chord_validated_others] `i = j - 1` j - 1 > i + 1 ==> (forall a int, b int :: 0 <= a && a < len(otherCurves) && 0 <= b && b + 1 < len(otherCurves[a]) ==> !segHit(segment(curve[i], curve[j-1]), otherCurves[a], b))
+//@   assert [last_chord_validated] `out = append(out, curve[j])` j > i + 1 ==> (forall b int :: 0 <= b && b + 1 < i ==> !segHit(segment(curve[i], curve[j]), out[0:i], b)) && (forall a int, b int :: 0 <= a && a < len(otherCurves) && 0 <= b && b + 1 < len(otherCurves[a]) ==> !segHit(segment(curve[i], curve[j]), otherCurves[a], b))
+//@   assert [last_chord_tol] `out = append(out, curve[j])` forall kk int :: i < kk && kk < j ==> distPS(curve[kk], curve[i], curve[j]) <= tol
 
 //@ func (l LineString) Simplify
 //@   prop C13
